@@ -97,9 +97,11 @@ META["C03"] = dict(
          "every flush order, EVERY number of file events k and both rollover variants: the image reopens without error and every key "
          "- any byte string - reads what it read at the last completed flush or what it reads after this one), "
          "C03_flush_crash_against_map (the same against the map at the last durable point / now; never an error for a well-formed "
-         "key), C03_removed_flushed_stays_absent, C03_flushed_unchanged_survives, C03_image_zero/_full. Partial with respect to the "
-         "statement: crashes inside Close, GC, open and upgrade steps, and the behaviour of the recovered store afterwards, are covered "
-         "by the crash engine (images at ~100 hook points recovered by the real code and by the model), not by theorems; known findings "
+         "key), C03_removed_flushed_stays_absent, C03_flushed_unchanged_survives, C03_image_zero/_full, "
+         "C03_recovered_store_keeps_working_partial (the recovered store refines the map again from a mixture of the durable and the "
+         "current contents, for every continuation; its invariants allow it to crash and recover again; the only weakening is a factor "
+         "2 in the byte budget premise). Partial with respect to the statement: crashes inside Close, GC, open and upgrade steps are "
+         "covered by the crash engine (images at ~100 hook points recovered by the real code and by the model), not by theorems; known findings "
          "D11, D12 are excluded by decidable recognisers on the image/history.",
     note=SEQ_NOTE + " Process-crash semantics: bytes reach files in order; rename/unlink/truncate/4-byte pwrite atomic. Hook completeness "
          "(every FS step lies between two points) is by construction of the hook commit, not yet audited with strace.",
